@@ -425,13 +425,14 @@ def run(tier):
     std = gen.standard_scenarios(work, rng, bs=4096)
     scen = [(s, ["-b", "4096"]) for s in std] + [(s, []) for s in (std if tier != "quick" else std[:2])] + boundary_scenarios(work, rng, tier)
     comps = ["gzip", "xz", "lz4", "zstd", "lzma"]
-    optsets = [[], ["-j", "3"], ["-T"], ["-e"], ["-b", "8192"], ["-b", "1048576"], ["-B", "65536"], ["-j", "1", "-Q", "1"]]
+    optsets = [[], ["-j", "3"], ["-T"], ["-e"], ["-b", "8192"], ["-b", "1048576"], ["-B", "65536"], ["-j", "1", "-Q", "1"], ["-X", "@"]]
+    XOPT = {"gzip": "level=3,window=10,huffman,default", "xz": "dictsize=8192,x86,level=1", "lz4": "hc", "zstd": "level=7", "lzma": "dictsize=8192,lc=1,lp=1,pb=1"}
     jobs = []
     for si, (s, base) in enumerate(scen):
         usable = [o for o in optsets if not ("-b" in base and "-b" in o)]
         combos = [(comps[(si + k) % len(comps)], usable[(si * 3 + k) % len(usable)]) for k in range(2 if tier == "quick" else 5)]
         for comp, opts in combos:
-            jobs.append((s, base, comp, opts))
+            jobs.append((s, base, comp, [XOPT[comp] if o == "@" else o for o in opts]))
 
     def pack(job):
         s, base, comp, opts = job
